@@ -30,6 +30,8 @@ def run(ctx):
         ctx.guard("C02", "relations", lambda: blocksize.relation_predicates(ctx, prog))
         ctx.guard("C02", "typestate", lambda: typestate.clear_before_accumulate(ctx, prog))
         ctx.guard("C02", "views", lambda: typestate.views_are_like_indexed(ctx, prog))
+        ctx.guard("C02", "equiv", lambda: typestate.equiv_exact(ctx, prog))
+        ctx.guard("C02", "accumulate", lambda: typestate.accumulate_exact(ctx, prog))
         if c not in ("nodef",):
             ctx.guard("C02", "easy", lambda: effbs.string_front_end(ctx, prog))
     return ctx.finish(EXPL, ["relation beliefs are read from configurations with debug assertions on (they are pruned in release MIR)", "edit distance and common-substring kernels are exact (C08/C09, not decided here)"])
